@@ -56,6 +56,34 @@ def run(repo: Repo, rep: Report, with_callback=True):
             return [("<cubic-segments>",)]
         it.hooks[("arc_to_cubic", "_arc_to_cubic")] = inner
 
+    # constant rotations: whatever normalisation of the rotation happens on the way, the arc that reaches the parametrisation is the same
+    # ellipse: radii (|rx|, |ry|) at rot modulo a half turn, or (|ry|, |rx|) a quarter turn further
+    from fractions import Fraction as _Fr
+    badr = None
+    n_rot = 0
+    for rot in (0, 90, 180, 270, 360, 540, -90, -180, 45, 30, 720, _Fr(1, 2)):
+        seen.clear()
+        for o in _und(explore(repo, fn, [P2("s"), S("rx"), S("ry"), rot, S("large"), S("sweep"), P2("e")], setup=setup), F):
+            if o.raised or list(o.value or []) != [("<cubic-segments>",)]:
+                continue
+            arc = seen.get("arc")
+            if not isinstance(arc, Rec):
+                continue
+            n_rot += 1
+            a_, b_ = repr(simplify_num(arc.f["rx"])), repr(simplify_num(arc.f["ry"]))
+            r_ = simplify_num(arc.f["rotation"]) if "rotation" in arc.f else None
+            if isinstance(r_, RF) or r_ is None:
+                badr = f"rotation {rot}: the arc handed to the parametrisation has rotation {r_!r}"
+                continue
+            same_axes = (a_, b_) == ("abs(rx)", "abs(ry)") and (_Fr(r_) - _Fr(rot)) % 180 == 0
+            swapped = (a_, b_) == ("abs(ry)", "abs(rx)") and (_Fr(r_) - _Fr(rot) - 90) % 180 == 0
+            if not (same_axes or swapped):
+                badr = (f"an arc with radii (rx, ry) and x-axis-rotation {rot} reaches the parametrisation as radii ({a_}, {b_}) at rotation {r_}: "
+                        "a different ellipse unless rx = ry")
+    if badr:
+        rep.fail("R-CASE.arc-dispatch", F, "the ellipse handed to the parametrisation", badr, A, A.func("arc_to_cubic"))
+    elif n_rot:
+        rep.ok("R-CASE.arc-dispatch", F + " [constant rotations]", f"{n_rot} paths over 12 rotations (quarter turns, half turns, others): radii and rotation describe the given ellipse", True)
     outs = _und(explore(repo, fn, [P2("s"), S("rx"), S("ry"), S("rot"), S("large"), S("sweep"), P2("e")], setup=setup), F)
     kinds = {"empty": [], "line": [], "curve": []}
     for o in outs:
